@@ -5,6 +5,7 @@ import (
 	"encoding/hex"
 	"fmt"
 	"reflect"
+	"sort"
 	"strings"
 	"time"
 
@@ -12,7 +13,98 @@ import (
 
 	"verif/harness/canon"
 	"verif/harness/core"
+	"verif/harness/gen"
 )
+
+// deepCopy: a structurally equal copy sharing no storage (maps, slices, byte slices).
+func deepCopy(x interface{}) interface{} {
+	switch t := x.(type) {
+	case map[string]interface{}:
+		if t == nil {
+			return t
+		}
+		m := make(map[string]interface{}, len(t))
+		for k, v := range t {
+			m[k] = deepCopy(v)
+		}
+		return m
+	case map[string]string:
+		m := make(map[string]string, len(t))
+		for k, v := range t {
+			m[k] = v
+		}
+		return m
+	case []interface{}:
+		if t == nil {
+			return t
+		}
+		a := make([]interface{}, len(t))
+		for i, v := range t {
+			a[i] = deepCopy(v)
+		}
+		return a
+	case []string:
+		return append([]string{}, t...)
+	case []byte:
+		if t == nil {
+			return t
+		}
+		return append([]byte{}, t...)
+	}
+	return x
+}
+
+// perturbRecord returns a record that differs from r in one place (or r's copy when nothing can be changed).
+func perturbRecord(c *core.Ctx, r interface{}) (interface{}, string) {
+	m, ok := r.(map[string]interface{})
+	if !ok || len(m) == 0 {
+		return map[string]interface{}{"only": r}, "wrapped"
+	}
+	keys := make([]string, 0, len(m))
+	for k := range m {
+		keys = append(keys, k)
+	}
+	sort.Strings(keys)
+	k := keys[c.Rng.Intn(len(keys))]
+	out := deepCopy(m).(map[string]interface{})
+	switch c.Rng.Intn(6) {
+	case 0: // same size: one key renamed, value kept
+		delete(out, k)
+		out[k+"'"] = deepCopy(m[k])
+		return out, "key renamed"
+	case 1: // same size, same shared keys: a nil-valued key under another name
+		out2 := deepCopy(m).(map[string]interface{})
+		out["u~"] = nil
+		out2["h~"] = nil
+		return []interface{}{out, out2}, "nil under different keys" // caller unpacks the pair
+	case 2: // a key present with nil vs absent
+		out["n~"] = nil
+		return out, "extra nil-valued key"
+	case 3: // leaf changed
+		out[k] = []interface{}{m[k]}
+		return out, "value wrapped in a list"
+	case 4: // nested: value replaced by a string rendering
+		out[k] = fmt.Sprint(m[k]) + "#"
+		return out, "value replaced"
+	default: // dynamic type changed, same number
+		switch t := m[k].(type) {
+		case int64:
+			out[k] = int(t)
+		case int:
+			out[k] = int64(t)
+		case string:
+			out[k] = []byte(t)
+		case []byte:
+			out[k] = string(t)
+		default:
+			out[k] = nil
+			if m[k] == nil {
+				out[k] = false
+			}
+		}
+		return out, "dynamic type changed"
+	}
+}
 
 func init() { All["C20"] = C20 }
 
@@ -94,17 +186,17 @@ func C20(c *core.Ctx) {
 	k := c.N(3, 4) // alphabet size for the exhaustive part
 	maxLen := 4
 	var lists [][]int
-	var gen func(cur []int)
-	gen = func(cur []int) {
+	var genl func(cur []int)
+	genl = func(cur []int) {
 		lists = append(lists, append([]int(nil), cur...))
 		if len(cur) == maxLen {
 			return
 		}
 		for x := 0; x < k; x++ {
-			gen(append(cur, x))
+			genl(append(cur, x))
 		}
 	}
-	gen(nil)
+	genl(nil)
 	build := func(ix []int, pres int) protocol.EntryList {
 		l := make(protocol.EntryList, len(ix))
 		for i, x := range ix {
@@ -144,5 +236,40 @@ func C20(c *core.Ctx) {
 			how = "dup"
 		}
 		one(build(a, 0), build(b, 1), how)
+	}
+	// records: generated records against their copies and single-place perturbations, inside lists of
+	// 1-3 entries; "deeply equal" is reflect.DeepEqual (the Go-side oracle), the model sees the classes
+	t0 := time.Unix(1700000000, 5)
+	mk := func(r interface{}) protocol.EntryExt { return protocol.EntryExt{Timestamp: protocol.EventTime{Time: t0}, Record: r} }
+	for i := 0; i < c.N(1500, 60000); i++ {
+		var r1 interface{}
+		for {
+			r1 = gen.GenMap(c.Rng, 2, false).ToGo(c.Rng)
+			if reflect.DeepEqual(r1, deepCopy(r1)) { // NaN-free
+				break
+			}
+		}
+		r2, how := deepCopy(r1), "copy"
+		if c.Rng.Intn(4) != 0 {
+			r2, how = perturbRecord(c, r1)
+			if pair, ok := r2.([]interface{}); ok && how == "nil under different keys" {
+				r1, r2 = pair[0], pair[1]
+			}
+		}
+		filler := alpha[c.Rng.Intn(len(alpha))]
+		a, b := protocol.EntryList{mk(r1)}, protocol.EntryList{mk(r2)}
+		switch c.Rng.Intn(3) {
+		case 1:
+			a, b = protocol.EntryList{filler[0], mk(r1)}, protocol.EntryList{mk(r2), filler[1]}
+		case 2:
+			a, b = protocol.EntryList{mk(r1), filler[0], mk(r1)}, protocol.EntryList{filler[1], mk(r2), mk(r1)}
+		}
+		want := reflect.DeepEqual(r1, r2)
+		got := a.Equal(b)
+		if got != want {
+			c.Violation("judge-go", "c20-record-equality", fmt.Sprintf("lists that differ only in one record (%s; DeepEqual=%v) compare %v", how, want, got),
+				map[string]string{"record_a": trunc(canon.Typed(r1), 400), "record_b": trunc(canon.Typed(r2), 400), "how": how})
+		}
+		one(a, b, "records: "+how)
 	}
 }
